@@ -796,6 +796,102 @@ theorem decodeFrame_serialize (p : Profile) (si : Option SInfo) (f : Frame) (xss
   simp only [hv16, Bool.false_eq_true, if_false]
 
 
+/-- the 16 footer bits read back as the checksum they were written from -/
+theorem readU16_crc (c : Nat) (hc : c < 65536) (r : Bits) :
+    readU 16 (natToBits 8 (c / 256) ++ (natToBits 8 (c % 256) ++ r)) = .ok (c, r) := by
+  have h1 : natToBits 16 c = natToBits 8 (c / 256) ++ natToBits 8 (c % 256) := by
+    have a : natToBits 16 c = natToBits 8 (c / 256) ++ natToBits 8 c := by
+      simp [natToBits, natToBitsAux, Nat.div_div_eq_div_mul]
+    have b : natToBits 8 c = natToBits 8 (c % 256) := by
+      have e0 : c % 256 % 2 = c % 2 := by omega
+      have e1 : c % 256 / 2 % 2 = c / 2 % 2 := by omega
+      have e2 : c % 256 / 4 % 2 = c / 4 % 2 := by omega
+      have e3 : c % 256 / 8 % 2 = c / 8 % 2 := by omega
+      have e4 : c % 256 / 16 % 2 = c / 16 % 2 := by omega
+      have e5 : c % 256 / 32 % 2 = c / 32 % 2 := by omega
+      have e6 : c % 256 / 64 % 2 = c / 64 % 2 := by omega
+      have e7 : c % 256 / 128 % 2 = c / 128 % 2 := by omega
+      simp [natToBits, natToBitsAux, Nat.div_div_eq_div_mul, e0, e1, e2, e3, e4, e5, e6, e7]
+    rw [a, b]
+  rw [← List.append_assoc, ← h1]
+  exact readU_natToBits_lt 16 c r hc
+
+theorem crc16_lt' (bs : List Nat) : crc16 bs < 65536 := crc16_lt bs
+
+/-- **The structural parser inverts the serializer** (any layout rule the subframes are well-formed for, with or without
+    the warm-up guard and CRC-8 enforcement): the parsed frame is the frame that was written (its footer field holding the
+    checksum), all bytes are used and both checksum verdicts are positive. -/
+theorem parseFrame_serialize (L : Layout) (cw enforce : Bool) (si : Option SInfo) (f : Frame) (w : FrameWf si f)
+    (hs : subsWf L f.hdr.assign f.hdr.blockSize f.hdr.bps f.subs 0) :
+    parseFrame L cw si f.serialize enforce = .ok
+      { frame := { f with footer := crc16 (bitsToBytes (writeHeaderFields f.hdr) ++ [crc8 (bitsToBytes (writeHeaderFields f.hdr))] ++
+            bitsToBytes (writeSubframes f.hdr.assign f.hdr.bps f.subs 0 ++ f.padding)) },
+        used := f.serialize.length, hdrUsed := (bitsToBytes (writeHeaderFields f.hdr)).length + 1,
+        crc8ok := true, crc16ok := true } := by
+  have hl8 := writeHeaderFields_len8 si f.hdr w.hdr
+  have hal := w.aligned
+  have hsb : (writeSubframes f.hdr.assign f.hdr.bps f.subs 0 ++ f.padding).length % 8 = 0 := by
+    rw [List.length_append]; exact hal
+  have hbl := bitsToBytes_length _ hl8
+  have hsl := bitsToBytes_length _ hsb
+  have ebits : bytesToBits f.serialize =
+      writeHeaderFields f.hdr ++ natToBits 8 f.hdr.hcrc ++
+        (writeSubframes f.hdr.assign f.hdr.bps f.subs 0 ++
+          (f.padding ++ (natToBits 8 (crc16 (bitsToBytes (writeHeaderFields f.hdr) ++ [crc8 (bitsToBytes (writeHeaderFields f.hdr))] ++
+              bitsToBytes (writeSubframes f.hdr.assign f.hdr.bps f.subs 0 ++ f.padding)) / 256) ++
+            natToBits 8 (crc16 (bitsToBytes (writeHeaderFields f.hdr) ++ [crc8 (bitsToBytes (writeHeaderFields f.hdr))] ++
+              bitsToBytes (writeSubframes f.hdr.assign f.hdr.bps f.subs 0 ++ f.padding)) % 256)))) := by
+    simp only [Frame.serialize, Frame.serializeWith, bytesToBits_append, bytesToBits_bitsToBytes _ hl8,
+      bytesToBits_bitsToBytes _ hsb, w.hcrc]
+    simp [bytesToBits, byteToBits]
+  have hclt := crc16_lt' (bitsToBytes (writeHeaderFields f.hdr) ++ [crc8 (bitsToBytes (writeHeaderFields f.hdr))] ++
+              bitsToBytes (writeSubframes f.hdr.assign f.hdr.bps f.subs 0 ++ f.padding))
+  generalize hc16 : crc16 (bitsToBytes (writeHeaderFields f.hdr) ++ [crc8 (bitsToBytes (writeHeaderFields f.hdr))] ++
+              bitsToBytes (writeSubframes f.hdr.assign f.hdr.bps f.subs 0 ++ f.padding)) = c16 at ebits hclt ⊢
+  have eser : f.serialize = (bitsToBytes (writeHeaderFields f.hdr) ++ [crc8 (bitsToBytes (writeHeaderFields f.hdr))]) ++
+      (bitsToBytes (writeSubframes f.hdr.assign f.hdr.bps f.subs 0 ++ f.padding) ++ [c16 / 256, c16 % 256]) := by
+    have hc16' := hc16
+    simp only [List.append_assoc] at hc16'
+    simp only [Frame.serialize, Frame.serializeWith, List.append_assoc, hc16']
+  have elen : f.serialize.length = (bitsToBytes (writeHeaderFields f.hdr)).length + 1 +
+      ((bitsToBytes (writeSubframes f.hdr.assign f.hdr.bps f.subs 0 ++ f.padding)).length + 2) := by
+    rw [eser]; simp; omega
+  unfold parseFrame
+  rw [ebits, readHeaderFields_write si f.hdr _ w.hdr]; dsimp only
+  rw [w.check]; dsimp only
+  have hk : f.serialize.length - (writeSubframes f.hdr.assign f.hdr.bps f.subs 0 ++
+          (f.padding ++ (natToBits 8 (c16 / 256) ++ natToBits 8 (c16 % 256)))).length / 8
+        = (bitsToBytes (writeHeaderFields f.hdr)).length + 1 := by
+    rw [elen]
+    simp only [List.length_append, natToBits_length] at hsl ⊢
+    omega
+  rw [hk]
+  have htake : f.serialize.take ((bitsToBytes (writeHeaderFields f.hdr)).length + 1) =
+      bitsToBytes (writeHeaderFields f.hdr) ++ [crc8 (bitsToBytes (writeHeaderFields f.hdr))] := by
+    rw [eser]; exact take_len_append _ _ _ (by simp)
+  rw [htake, crc8_self]
+  have hv8 : crc8Valid 0 = true := by decide
+  simp only [hv8, Bool.not_true, Bool.and_false, Bool.false_eq_true, if_false]
+  rw [← w.count, readSubframes_write L cw f.hdr.assign f.hdr.blockSize f.hdr.bps f.subs 0 _ hs]; dsimp only
+  have hpl : (f.padding ++ (natToBits 8 (c16 / 256) ++ natToBits 8 (c16 % 256))).length % 8 = f.padding.length := by
+    simp only [List.length_append, natToBits_length]
+    have := w.padLt; omega
+  rw [hpl]
+  have hdrop : (f.padding ++ (natToBits 8 (c16 / 256) ++ natToBits 8 (c16 % 256))).drop f.padding.length =
+      natToBits 8 (c16 / 256) ++ (natToBits 8 (c16 % 256) ++ []) := by simp
+  have htk : (f.padding ++ (natToBits 8 (c16 / 256) ++ natToBits 8 (c16 % 256))).take f.padding.length = f.padding := by simp
+  rw [hdrop, htk, readU16_crc c16 hclt []]; dsimp only
+  simp only [List.length_nil, Nat.zero_div, Nat.sub_zero, List.take_length]
+  have hz : crc16 f.serialize = 0 := by
+    have := crc16_self (bitsToBytes (writeHeaderFields f.hdr) ++ [crc8 (bitsToBytes (writeHeaderFields f.hdr))] ++
+              bitsToBytes (writeSubframes f.hdr.assign f.hdr.bps f.subs 0 ++ f.padding))
+    rw [hc16] at this
+    rw [eser]
+    simpa [List.append_assoc] using this
+  rw [hz]
+  have hv16 : crc16Valid 0 = true := by decide
+  rw [hv16]
+
 /-! ### the serialized bytes are bytes -/
 
 theorem bitsToNat_lt' (x : Bits) : bitsToNat x < 2 ^ x.length := by
